@@ -12,14 +12,16 @@ from values import *
 
 def job(sub, runtime, budget, with_sup):
     prog, info = lc.load()
-    I1, a1, pm, S, I, a, res = lp.explore(sub, prog, runtime, budget, with_sup)
+    I1, a1, pm, S, I, a, res = lp.explore(sub, prog, runtime, budget, with_sup, cancel_points=True)
     tag = '%s.p%d.%s' % (runtime, budget, 'sup' if with_sup else 'nosup')
     seen = set()
     for k, r in enumerate(res):
         st = r['state']
         name = '%s.life.path%d' % (tag, k)
         claims = {'task_and_start_never_unwind': r['kind'] not in ('unwind', 'abort')}
-        complete = r['kind'] == 'ready'
+        complete = r['kind'] in ('ready', 'cancelled')
+        if r['kind'] == 'cancelled':
+            seen.add('task_cancelled_at_a_suspension')
         claims.update(lo.terminal_claims(st.trace, complete, with_sup))
         lp.record(sub, name, st, claims, 'C04.lifecycle', sample={'phase': r['phase'], 'events': [e[1] for e in st.trace if e[0] == 'SUPEVT'],
                                                                 'exits': [e[1] for e in st.trace if e[0] == 'LOOPEXIT']},
@@ -33,8 +35,8 @@ def job(sub, runtime, budget, with_sup):
             seen.add('failed_start_silent')
         if any(e[0] == 'CAUGHT' for e in st.trace):
             seen.add('panic_caught')
-    for w in ('failure_reported', 'termination_reported', 'failed_start_silent', 'panic_caught'):
-        if with_sup or w in ('failed_start_silent', 'panic_caught'):
+    for w in ('failure_reported', 'termination_reported', 'failed_start_silent', 'panic_caught', 'task_cancelled_at_a_suspension'):
+        if with_sup or w in ('failed_start_silent', 'panic_caught', 'task_cancelled_at_a_suspension'):
             sub.note_witness('C04.%s.%s' % (tag, w), w in seen)
 
 
